@@ -294,7 +294,7 @@ def part_cache(cx):
 # (3) store endpoints   and   (5) RemoteStore
 
 
-STORE_KEYS = ["a", "a/b.txt", "a/c/d.json", "e.txt", "f", "f/g.bin", "h i.txt", "k-1/l~2.txt"]
+STORE_KEYS = ["a", "a/b.txt", "a/c/d.json", "e.txt", "f", "f/g.bin", "h i.txt", "k-1/l~2.txt", "a2/keep.txt", "ab.txt", "a2"]
 
 
 def store_view(s, prefix=""):
@@ -546,6 +546,10 @@ def part_remote_store(cx):
                     ra, rb = both(lambda s: s.remove(k))
                 elif kind == "makedir":
                     ra, rb = both(lambda s: s.makedir(k))
+                elif kind == "removedir":
+                    ra, rb = both(lambda s: s.removedir(k))
+                elif kind == "removedir_recursive":
+                    ra, rb = both(lambda s: s.removedir(k, recursive=True))
                 elif kind == "contains":
                     ra, rb = both(lambda s: bool(s.contains(k)))
                 elif kind == "is_dir":
@@ -601,6 +605,8 @@ def part_remote_store(cx):
                 hist.append(["remove", k])
             elif r < 0.6:
                 hist.append(["makedir", k])
+            elif r < 0.64:
+                hist.append([rnd.choice(["removedir", "removedir_recursive", "removedir_recursive"]), rnd.choice(["a", "f", "a/c", "a2", k])])
             elif r < 0.7:
                 hist.append(["contains", k])
             elif r < 0.76:
